@@ -80,7 +80,7 @@ var configs = map[string]propCfg{
 		Assumptions: []string{wellTyped, "missing a diagnostic on a namesake is never a violation; only reports are judged", "method-based subjects (types) are not judged: fake packages alias the real types"},
 	},
 	"C13": {
-		Quick:    tierCfg{Shards: 8, Checks: 600, Limit: qLimit},
+		Quick:    tierCfg{Shards: 16, Checks: 700, Limit: qLimit},
 		Thorough: tierCfg{Shards: 16, Checks: 3000, Limit: tLimit},
 		Floor:    100,
 		Rule: "a file of a maintainer-written example package (70%) or a kernel file (30%) is cut line-wise into top-level declaration chunks (each with its leading comments and /*! expectation */ lines); " +
@@ -158,10 +158,12 @@ var configs = map[string]propCfg{
 		Assumptions: []string{"entries with surrounding whitespace are not generated (the CLI does not trim, the analyzer does; the statement does not define it)", "the analyzer is compared against its own documented flag defaults"},
 	},
 	"C19": {
-		Quick:    tierCfg{Shards: 10, Checks: 20, Limit: qLimit},
-		Thorough: tierCfg{Shards: 16, Checks: 400, Limit: tLimit},
-		Floor:    30,
-		NeedBins: true,
+		FuzzTargets: []string{"FuzzSource", "FuzzKernelBody"},
+		FuzzTime:    "4m",
+		Quick:       tierCfg{Shards: 10, Checks: 20, Limit: qLimit},
+		Thorough:    tierCfg{Shards: 16, Checks: 400, Limit: tLimit},
+		Floor:       30,
+		NeedBins:    true,
 		Rule: "two families, half each: (1) invalid configuration from {malformed -go (11 spellings), unknown failOn, rules pattern without a match, empty selection, unparsable integer parameter} x the four binaries x 1-3 target packages (each with one diagnostic to reveal analysis with a partial set); " +
 			"oracle: non-zero exit, a message naming the problem (keyword table per class), no panic/fatal/signal trace, no diagnostic line; (2) workspaces with 1-2 injected faults from {deleted brace/paren, undefined identifier, type mismatch, unloadable import, relative import, mixed package clauses, empty file, truncated file, unused variable, duplicate declarations, missing return, builtin calls with wrong arity} analysed with all checkers by each binary; " +
 			"oracle: any exit status but no crash trace and completion within 150 s (re-confirmed once). Non-trivial = invalid configuration with >= 2 packages (re-entry after the first error), or any broken package; distinct by case.",
